@@ -28,7 +28,11 @@ REQUIRED_THEOREMS = ["C17_records_getattr", "C17_records_statistics_getattr", "C
                      "C17_saver_file", "C17_records_metric_run", "C17_records_observable_run",
                      "C17_records_get_value", "C17_records_get_value_out_of_range", "C17_independent",
                      "C17_fit_stream", "C17_fit_schedule", "C17_fit_callbacks", "C17_fit_stopped_beforehand",
-                     "C17_saver_file_last", "C17_saver_file_overwrite", "C17_saver_file_none", "C17_logger_default_msg"]
+                     "C17_saver_file_last", "C17_saver_file_overwrite", "C17_saver_file_none", "C17_logger_default_msg",
+                     # extension round 2: verbose branches (order of effects), names / CSV columns
+                     "C17_verbose_irrelevant_when_formattable", "C17_verbose_run_irrelevant_when_formattable", "C17_verbose_identity_test",
+                     "C17_verbose_unformattable_partial", "C17_verbose_irrelevant_when_formattable_observable",
+                     "C17_verbose_unformattable_partial_observable", "C17_columns_of_names"]
 EXTRA_TRUSTED = [
     "C17: the event stream fed to the model is the one recorded by a user callback in the same real run; that a real fit(starting_epoch, epochs) "
     "produces train-start, then the epoch-ends of starting_epoch..last (last = epochs, or the epoch of the first stop request) is "
@@ -1395,6 +1399,243 @@ def gen_cases(ctx, thorough):
     yield from malformed_cases(rng)
 
 
+# ---------------------------------------------------------------- verbose branches + names / columns (extension round 2)
+# Callbacks.onEpochEndV / runV (order of effects: history appended, header printed, `{v:.6f}` formatting, line printed, CSV row written) and
+# ObservableEvaluator.names / csvFields (C17_columns_of_names) against the REAL `on_epoch_end`, called directly on a scripted run:
+# metric functions / `system.statistics` return scripted values of the kinds float, numpy.float64, 0-d tensor, int (formattable) and - in the
+# `bad` stream - str / None / a 2-element tensor / a list (`{v:.6f}` raises).  Twins: the same script with the given `verbose` object
+# (True, False, 1, numpy.True_, a 0-d numpy array, a 0-d tensor) and with verbose=False.
+VERBOSE_OBJS = ["True", "False", "1", "np.True_", "np0d", "t0d"]
+VALUE_KINDS = ["float", "npfloat", "tensor0", "int"]
+BAD_KINDS = ["str", "None", "tensor2", "list"]
+TH_VERB = "C17_verbose_irrelevant_when_formattable, C17_verbose_run_irrelevant_when_formattable, C17_verbose_irrelevant_when_formattable_observable"
+
+
+def verbose_obj(tag):
+    return {"True": True, "False": False, "1": 1, "np.True_": np.True_, "np0d": np.array(True), "t0d": torch.tensor(True)}[tag]
+
+
+def verbose_flag_desc(tag):
+    return {"True": {"form": 0, "value": 1}, "False": {"form": 0, "value": 0}, "1": {"form": 1, "value": 1}, "np.True_": {"form": 2, "value": 1},
+            "np0d": {"form": 3, "value": 1}, "t0d": {"form": 4, "value": 1}}[tag]
+
+
+def scripted_value(kind, x):
+    if kind == "float":
+        return float(x)
+    if kind == "npfloat":
+        return np.float64(x)
+    if kind == "tensor0":
+        return torch.tensor(float(x), dtype=torch.double)
+    if kind == "int":
+        return int(round(x * 4))
+    return {"str": "n/a", "None": None, "tensor2": torch.tensor([float(x), 1.0], dtype=torch.double), "list": [float(x)]}[kind]
+
+
+def value_canon(v):
+    """JSON-able identity of a recorded value (kind + number)"""
+    if isinstance(v, torch.Tensor):
+        return ["tensor", [float(t) for t in v.reshape(-1).tolist()]]
+    if isinstance(v, np.floating):
+        return ["npfloat", float(v)]
+    if isinstance(v, bool) or v is None or isinstance(v, str):
+        return [type(v).__name__, v]
+    if isinstance(v, (int, float)):
+        return [type(v).__name__, v]
+    if isinstance(v, list):
+        return ["list", v]
+    return [type(v).__name__, repr(v)]
+
+
+def csv_line(cells):
+    """the text csv.DictWriter writes for these Python values"""
+    buf = io.StringIO()
+    csv.writer(buf).writerow(cells)
+    return next(csv.reader(io.StringIO(buf.getvalue())))
+
+
+def gen_verbose_case(rng, kind, stream):
+    E = rng.randrange(2, 7)
+    p = rng.choice([1, 1, 2, 3])
+    nn = rng.randrange(1, 4)
+    case = {"verbose_case": True, "kind": kind, "stream": stream, "period": p, "epochs": E, "log": rng.random() < 0.7,
+            "verbose": rng.choice(["True", "True", "True"] + VERBOSE_OBJS), "start": rng.choice([1, 1, 2, 5])}
+    if kind == "metric":
+        case["names"] = rng.sample(["kl", "nll", "a b", "fid", "x"], nn)
+        slots = [(n, None) for n in case["names"]]
+    else:
+        case["leaves"] = rng.sample([{"type": "SigmaX"}, {"type": "SigmaZ", "absolute": True}, {"type": "SigmaZ"}, {"type": "SWAP", "A": 1},
+                                     {"type": "NI", "periodic": {"form": rng.choice(qc.FLAG_FORMS), "value": rng.random() < 0.5}, "c": rng.randrange(1, 3),
+                                      "c_form": rng.choice(["py", "np.int64", "t0d"]), "pos": False},
+                                     {"type": "user", "cls": "Energy", "set": []}, {"type": "user", "cls": "PlainLeaf", "set": [["name", "E x"]]}], nn)
+        case["composite"] = rng.random() < 0.4     # one more observable: -leaf0 + 2 (named by the library)
+        slots = [(i, st) for i in range(nn + (1 if case["composite"] else 0)) for st in ("mean", "variance", "std_error")]
+    script = []
+    for e in range(E):
+        row = []
+        for _ in slots:
+            row.append([rng.choice(VALUE_KINDS), round(rng.gauss(0, 2), 3)])
+        script.append(row)
+    if stream == "bad":
+        if rng.random() < 0.6:
+            case["verbose"] = "True"            # the branch that formats (and raises)
+        ev = [e for e in range(E) if (case["start"] + e) % p == 0] or [0]
+        e = rng.choice(ev)
+        script[e][rng.randrange(len(slots))][0] = rng.choice(BAD_KINDS)
+    case["script"] = script
+    return case
+
+
+def verbose_case(ctx, case):
+    from qucumber.callbacks import MetricEvaluator, ObservableEvaluator
+    from . import c16
+    kind, p, E, start = case["kind"], case["period"], case["epochs"], case["start"]
+    epochs = [start + i for i in range(E)]
+    sig = f"verbose/{kind}"
+    ctx.case({k: v for k, v in case.items()}, nontrivial=E >= 3 and any(e % p == 0 for e in epochs),
+             sample={"verbose_case": kind, "stream": case["stream"], "verbose": case["verbose"], "period": p, "epochs": E})
+    ctx.count(f"verbose:{kind}:{case['stream']}:verbose={case['verbose']}:log={'on' if case['log'] else 'off'}")
+    values = {}           # token -> Python value
+    tok_of = {}
+
+    def token(e_idx, slot):
+        k, x = case["script"][e_idx][slot]
+        key = (e_idx, slot)
+        if key not in tok_of:
+            tok_of[key] = len(tok_of) + 1
+            values[tok_of[key]] = scripted_value(k, x)
+            ctx.count(f"verbose:value kind={k}")
+        return tok_of[key]
+    cur = {"e": 0}
+    tmp = tempfile.mkdtemp(prefix="qv_c17v_")
+    try:
+        def build(vobj, path):
+            if kind == "metric":
+                def mk(slot):
+                    return lambda nn_state, **kw: values[token(cur["e"], slot)]
+                return MetricEvaluator(p, {n: mk(i) for i, n in enumerate(case["names"])}, verbose=vobj, log=path), None
+            built = [c16.make_named_leaf(sp) for sp in case["leaves"]]
+            obs = [b[0] for b in built]
+            idents = [b[1] for b in built]
+            if case.get("composite"):
+                obs.append(-obs[0] + 2)
+            ev = ObservableEvaluator(p, obs, verbose=vobj, log=path, num_samples=10)
+            keys = list(ev.system.observables.keys())
+
+            def scripted(nn_state, **kw):
+                # what System.statistics returns: one dict per key, in key order; slot of observable i / statistic j = 3 i + j
+                out = {}
+                for k in keys:
+                    i = [o.name for o in obs].index(k)
+                    out[k] = {st: values[token(cur["e"], 3 * i + j)] for j, st in enumerate(("mean", "variance", "std_error"))}
+                    out[k]["num_samples"] = 10
+                return out
+            ev.system.statistics = scripted
+            return ev, (obs, idents)
+
+        def run(vobj, tag):
+            path = os.path.join(tmp, f"log_{tag}.csv") if case["log"] else None
+            ev, extra = build(vobj, path)
+            out, raised, at = io.StringIO(), None, None
+            for i, e in enumerate(epochs):
+                cur["e"] = i
+                try:
+                    with contextlib.redirect_stdout(out):
+                        ev.on_epoch_end(None, e)
+                except Exception as ex:  # noqa: BLE001
+                    raised, at = type(ex).__name__, e
+                    break
+            rows = read_csv(path) if path else []
+            canon = (lambda d: {k: value_canon(v) for k, v in d.items()}) if kind == "metric" else \
+                (lambda d: {k: {s: value_canon(v) for s, v in sd.items()} for k, sd in d.items()})
+            state = {"len": len(ev), "epochs": [int(x) for x in ev.epochs], "last": canon(ev.last),
+                     "past": [[int(ep), canon(d)] for ep, d in ev.past_values], "csv": rows}
+            return {"ev": ev, "extra": extra, "state": state, "stdout": out.getvalue(), "raised": raised, "at": at}
+        V = run(verbose_obj(case["verbose"]), "v")
+        Q = run(False, "q")
+    finally:
+        shutil.rmtree(tmp, ignore_errors=True)
+    # formattability of every value that was computed (the interpreter's `format(v, ".6f")`: an input of the model)
+    fmt = []
+    all_ok = True
+    for t, v in values.items():
+        try:
+            fmt.append([t, format(v, ".6f"), None])
+        except Exception as ex:  # noqa: BLE001
+            fmt.append([t, None, type(ex).__name__ if type(ex).__name__ in ("TypeError", "ValueError") else "TypeError"])
+            all_ok = False
+    if kind == "observable":
+        fmt.append([-10, format(10, ".6f"), None])       # num_samples
+    # ---- oracles on the implementation (twins)
+    if Q["raised"] is None and all_ok:
+        ctx.oracle("verbose on/off twins: same records (len, epochs, last, history, CSV rows), no exception, whenever every value is formattable",
+                   V["raised"] is None and V["state"] == Q["state"], case,
+                   detail={"verbose": {k: V[k] for k in ("state", "raised", "at")}, "quiet": Q["state"]}, sig=f"{sig}/twins", theorem=TH_VERB)
+    else:
+        ctx.count(f"verbose:unformattable value met ({kind}): outside the property's values, effects compared with the model at aux level")
+    if ctx.driver is None:
+        return
+    # ---- model
+    args = dict(kind=kind, period=p, log=bool(case["log"]), verbose=verbose_flag_desc(case["verbose"]), fmt=fmt,
+                events=[{"k": "ee", "e": e, "w": i} for i, e in enumerate(epochs)])
+    nslots = len(case["script"][0])
+    tk = lambda i, s: tok_of.get((i, s), 0)  # noqa: E731
+    if kind == "metric":
+        args["vals"] = [[n, [tk(i, s) for i in range(E)]] for s, n in enumerate(case["names"])]
+        mnames = case["names"]
+    else:
+        obs, idents = V["extra"]
+        mnames = []
+        for i, o in enumerate(obs):
+            if i < len(idents):
+                mm = ctx.driver.call("c16.names", leaves=[idents[i]], expr=["leaf", 0])
+            else:
+                mm = ctx.driver.call("c16.names", leaves=[idents[0]], expr=["add", ["neg", ["leaf", 0]], ["const", "int", 2]])
+            mnames.append(mm.get("name"))
+        ctx.point("names of the observables handed to the evaluator", "property", [o.name for o in obs], mnames, case, exact=True,
+                  theorem="C17_columns_of_names, C16_name_of_build", sig=f"{sig}/obs-names")
+        args["obs"] = mnames
+        keys = []
+        for n in mnames:
+            if n not in keys:
+                keys.append(n)
+        args["stats"] = [[[k, [[st, tk(i, 3 * [x for x in mnames].index(k) + j)] for j, st in enumerate(("mean", "variance", "std_error"))]
+                              + [["num_samples", -10]]] for k in keys] for i in range(E)]
+        # duplicates: System keeps the LAST observable given with a name; the scripted statistics use the FIRST index of the name for the slot
+    m = ctx.driver.call("c17.verbose", **args)
+    val = lambda t: 10 if t == -10 else values.get(t)  # noqa: E731
+    ev = V["ev"]
+    ctx.point("evaluator.names", "property", list(ev.names), m["names"], case, exact=True, theorem="C17_columns_of_names", sig=f"{sig}/names")
+    ctx.point("csv_fields (header of the CSV log)", "property", list(ev.csv_fields), m["fields"], case, exact=True, theorem="C17_columns_of_names",
+              sig=f"{sig}/fields")
+    # a value `{v:.6f}` cannot format is outside the property's values: whatever `verbose` is, the effects are compared at aux level then
+    lvl = "property" if all_ok else "aux"
+    th = TH_VERB if lvl == "property" else "C17_verbose_unformattable_partial, C17_verbose_unformattable_partial_observable, C17_verbose_identity_test"
+    ctx.point("raised (an exception left on_epoch_end)", lvl, V["raised"] is not None, m["err"] is not None, case, exact=True, theorem=th, sig=f"{sig}/raised")
+    ctx.point("len and epochs", lvl, [V["state"]["len"], V["state"]["epochs"]], [m["len"], m["epochs"]], case, exact=True, theorem=th, sig=f"{sig}/epochs")
+    if kind == "metric":
+        mlast = {k: value_canon(val(t)) for k, t in m["last"]}
+        mpast = [[e, {k: value_canon(val(t)) for k, t in d}] for e, d in m["past"]]
+    else:
+        mlast = {k: {s: value_canon(val(t)) for s, t in sd} for k, sd in m["last"]}
+        mpast = [[e, {k: {s: value_canon(val(t)) for s, t in sd} for k, sd in d}] for e, d in m["past"]]
+    ctx.point("last", lvl, V["state"]["last"], mlast, case, exact=True, theorem=th, sig=f"{sig}/last")
+    ctx.point("past_values", lvl, V["state"]["past"], mpast, case, exact=True, theorem=th, sig=f"{sig}/past")
+    mrows = [csv_line([c["t"] if "t" in c else c["i"] if "i" in c else "" if "b" in c else val(c["v"]) for c in row]) for row in m["log"]]
+    ctx.point("CSV rows (header + one row per completed evaluation)", lvl, V["state"]["csv"], mrows, case, exact=True, theorem=th, sig=f"{sig}/csv")
+    ctx.point("stdout (header / formatted line per evaluation, in order)", "aux", V["stdout"], "".join(m["out"]), case, exact=True,
+              theorem="C17_verbose_identity_test", sig=f"{sig}/stdout")
+    if lvl == "aux":
+        ctx.count(f"verbose:partial effects compared ({kind}; raised={V['raised']})")
+
+
+def verbose_cases(ctx, n):
+    for i in range(n):
+        kind = "metric" if i % 2 == 0 else "observable"
+        stream = "bad" if i % 4 >= 2 else "formattable"
+        verbose_case(ctx, gen_verbose_case(ctx.rng, kind, stream))
+
+
 def run(ctx):
     ctx.rule = RULE
     if ctx.driver is not None:
@@ -1404,6 +1645,7 @@ def run(ctx):
     own_sanity(ctx)
     format_spec_cases(ctx)
     appended_log_cases(ctx)
+    verbose_cases(ctx, 120 if ctx.tier == "thorough" else 32)
     for case in gen_cases(ctx, ctx.tier == "thorough"):
         run_case(ctx, case)
 
@@ -1559,6 +1801,7 @@ def search(ctx):
     try:
         format_spec_cases(ctx)
         appended_log_cases(ctx)
+        verbose_cases(ctx, 120)
         for case in gen_cases(ctx, True):
             run_case(ctx, case)
     finally:
@@ -1566,6 +1809,9 @@ def search(ctx):
 
 
 def replay(ctx, case):
+    if case.get("verbose_case"):
+        verbose_case(ctx, case)
+        return
     if "format_spec" in case:
         format_spec_cases(ctx, forms="fseed" in case or "iseed" in case)
         return
